@@ -75,6 +75,11 @@ impl Report {
         }
     }
 
+    /// total number of oracle failures recorded so far (all instances, not distinct keys)
+    pub fn violation_instances(&self) -> u64 {
+        self.violations.values().map(|v| v.0).sum()
+    }
+
     pub fn distinct_hash<T: std::hash::Hash>(&mut self, t: &T) {
         use std::hash::Hasher;
         let mut h = std::collections::hash_map::DefaultHasher::new();
